@@ -1,8 +1,518 @@
-/- Driver handler owned by property C07: `c07 <args…>` requests. -/
+/-
+  Driver handler owned by property C07: `c07 <args…>` requests.
+
+    c07 prog <sexp>            → ok | err <rule> | bad-parse
+        the declarative checker `RotoV.Typing.checkProg` on a program printed by
+        harness/src/bin/c07.rs:
+          prog ::= (prog decl…)
+          decl ::= (fn N ((x ty)…) ty blk) | (const N ty expr)
+                 | (rec N ((f ty)…)) | (enum N ((k ty…)…))
+          ty   ::= u8|…|i64|f32|f64|bool|str|unit|char|ip|prefix|asn
+                 | (opt ty) | (list ty) | (t N) | (verdict ty ty)
+          blk  ::= (blk (stmt…) [expr])
+          stmt ::= (let x ty|_ expr) | (do expr)
+          expr ::= (int suf|_) | (float f32|f64|_) | (bool) | (str) | (unitlit)
+                 | (var x) | (const c) | (field e f) | (neg e) | (not e) | (bin op l r)
+                 | (if c blk [blk]) | (while c blk) | (for x e blk) | (block blk)
+                 | (call f e…) | (mcall e m e…) | (set 0|1 x (p…) e) | (cset op 0|1 x (p…) e)
+                 | (ret ret|accept|reject [e]) | (record T (f e)…) | (list e…)
+                 | (ctor T K e…) | (some e) | (none) | (try e) | (match e arm…) | (fstr e…)
+          arm  ::= (arm pat expr|_ blk)
+          pat  ::= _ | (p some|none|K n) | (p some|none|K b x…)
+    c07 op <op> <l> <r>        → ok <t> | rej     (`TcRules.binopReal`)
+    c07 opdoc <op> <l> <r>     → ok | rej         (documented rule `Typing.binopTy`)
+    c07 neg <t> / c07 not <t>  → ok <t> | rej
+    c07 assign <0|1> <local|constant|context> → ok | rej   (`TcRules.assignAccepts`; 1 = compound)
+    c07 match <v:arity,…> <arm,…>   → ok | err <kind> ; doc ok | doc err <kind>
+        arm ::= _[g] | NAME:n[g] | NAME:b<k>[:dup][g]   (NAME = some|none|K<i>)
+    c07 unify <sexp>           → same output format as the hook
+        `roto::verif_hooks::c07::unify_script`
+    c07 decl <scope:id:kind,…> → ok | err <index of the rejected insertion>
+    c07 compat <t:u,…|never>        → typable | untypable   (all pairs `Typing.compat`)
+    c07 rec fits <fields> <fields>  → typable | untypable   (`Typing.recLitFits`: record literal vs record type)
+    c07 rec field <fields> <f> <ty> → typable | untypable   (`Typing.recFieldFits`)
+    c07 lit <n> <stmt,…>            → typable | untypable   (`Typing.ltypable`)
+-/
 import Driver.Util
+import RotoV.Model.Typing
+import RotoV.Model.UnifyTc
+import RotoV.Model.TcRules
 
 namespace Driver.C07
+open RotoV RotoV.Typing
 
-def handle (_args : List String) : String := "bad-op"
+inductive Sexp
+  | atom (s : String)
+  | list (xs : List Sexp)
+  deriving Inhabited
+
+def tokens (s : String) : List String :=
+  let step (acc : List String × String) (c : Char) : List String × String :=
+    let (out, cur) := acc
+    let flush := if cur.isEmpty then out else cur :: out
+    if c = '(' then ("(" :: flush, "")
+    else if c = ')' then (")" :: flush, "")
+    else if c = ' ' || c = '\n' || c = '\t' then (flush, "")
+    else (out, cur.push c)
+  let (out, cur) := s.foldl step ([], "")
+  (if cur.isEmpty then out else cur :: out).reverse
+
+partial def parseSexp : List String → Option (Sexp × List String)
+  | [] => none
+  | "(" :: rest =>
+    let rec go (ts : List String) (acc : List Sexp) : Option (Sexp × List String) :=
+      match ts with
+      | [] => none
+      | ")" :: rest => some (.list acc.reverse, rest)
+      | ts => match parseSexp ts with
+        | some (x, rest) => go rest (x :: acc)
+        | none => none
+    go rest []
+  | ")" :: _ => none
+  | a :: rest => some (.atom a, rest)
+
+def parseITy : String → Option ITy
+  | "u8" => some .u8 | "u16" => some .u16 | "u32" => some .u32 | "u64" => some .u64
+  | "i8" => some .i8 | "i16" => some .i16 | "i32" => some .i32 | "i64" => some .i64
+  | _ => none
+
+partial def parseTy : Sexp → Option Ty
+  | .atom "f32" => some .f32 | .atom "f64" => some .f64 | .atom "bool" => some .bool
+  | .atom "str" => some .string | .atom "unit" => some .unit
+  | .atom "char" => some (.prim 0) | .atom "ip" => some (.prim 1)
+  | .atom "prefix" => some (.prim 2) | .atom "asn" => some (.prim 3)
+  | .atom s => (parseITy s).map .int
+  | .list [.atom "opt", t] => (parseTy t).map .opt
+  | .list [.atom "list", t] => (parseTy t).map .list
+  | .list [.atom "t", .atom n] => n.toNat?.map .named
+  | .list [.atom "verdict", a, r] => do pure (.verdict (← parseTy a) (← parseTy r))
+  | _ => none
+
+def parseOp : String → Option BinOp
+  | "add" => some .add | "sub" => some .sub | "mul" => some .mul | "div" => some .div
+  | "mod" => some .mod | "eq" => some .eq | "ne" => some .ne | "lt" => some .lt
+  | "le" => some .le | "gt" => some .gt | "ge" => some .ge | "and" => some .and
+  | "or" => some .or | _ => none
+
+def parseNat : Sexp → Option Nat
+  | .atom s => s.toNat?
+  | _ => none
+
+def parsePatName : Sexp → Option PatName
+  | .atom "some" => some .some
+  | .atom "none" => some .none
+  | .atom s => s.toNat?.map .user
+  | _ => none
+
+def parsePat : Sexp → Option Pat
+  | .atom "_" => some .wild
+  | .list (.atom "p" :: n :: .atom "n" :: []) => do pure (.variant (← parsePatName n) none)
+  | .list (.atom "p" :: n :: .atom "b" :: xs) => do
+    pure (.variant (← parsePatName n) (some (← xs.mapM parseNat)))
+  | _ => none
+
+mutual
+partial def parseExpr : Sexp → Option Expr
+  | .list [.atom "int", .atom "_"] => some (.intLit none)
+  | .list [.atom "int", .atom s] => (parseITy s).map fun t => .intLit (some t)
+  | .list [.atom "float", .atom "_"] => some (.floatLit none)
+  | .list [.atom "float", .atom "f32"] => some (.floatLit (some false))
+  | .list [.atom "float", .atom "f64"] => some (.floatLit (some true))
+  | .list [.atom "bool"] => some .boolLit
+  | .list [.atom "str"] => some .strLit
+  | .list [.atom "unitlit"] => some .unitLit
+  | .list [.atom "var", x] => (parseNat x).map .var
+  | .list [.atom "const", x] => (parseNat x).map .const
+  | .list [.atom "field", e, f] => do pure (.field (← parseExpr e) (← parseNat f))
+  | .list [.atom "neg", e] => (parseExpr e).map .neg
+  | .list [.atom "not", e] => (parseExpr e).map .not
+  | .list [.atom "bin", .atom op, l, r] => do
+    pure (.bin (← parseOp op) (← parseExpr l) (← parseExpr r))
+  | .list [.atom "if", c, t] => do pure (.ite (← parseExpr c) (← parseBlock t) none)
+  | .list [.atom "if", c, t, e] => do
+    pure (.ite (← parseExpr c) (← parseBlock t) (some (← parseBlock e)))
+  | .list [.atom "while", c, b] => do pure (.while (← parseExpr c) (← parseBlock b))
+  | .list [.atom "for", x, e, b] => do
+    pure (.for (← parseNat x) (← parseExpr e) (← parseBlock b))
+  | .list [.atom "block", b] => (parseBlock b).map .block
+  | .list (.atom "call" :: f :: args) => do pure (.call (← parseNat f) (← args.mapM parseExpr))
+  | .list (.atom "mcall" :: e :: m :: args) => do
+    pure (.mcall (← parseExpr e) (← parseNat m) (← args.mapM parseExpr))
+  | .list [.atom "set", .atom c, x, .list path, e] => do
+    pure (.assign (c == "1") (← parseNat x) (← path.mapM parseNat) (← parseExpr e))
+  | .list [.atom "cset", .atom op, .atom c, x, .list path, e] => do
+    pure (.cassign (← parseOp op) (c == "1") (← parseNat x) (← path.mapM parseNat) (← parseExpr e))
+  | .list [.atom "ret", .atom k] => do pure (.ret (← parseKind k) none)
+  | .list [.atom "ret", .atom k, e] => do pure (.ret (← parseKind k) (some (← parseExpr e)))
+  | .list (.atom "record" :: t :: fields) => do
+    pure (.record (← parseNat t) (← fields.mapM parseField))
+  | .list (.atom "list" :: es) => do pure (.listLit (← es.mapM parseExpr))
+  | .list (.atom "ctor" :: t :: k :: args) => do
+    pure (.ctor (← parseNat t) (← parseNat k) (← args.mapM parseExpr))
+  | .list [.atom "some", e] => (parseExpr e).map .some
+  | .list [.atom "none"] => some .none
+  | .list [.atom "try", e] => (parseExpr e).map .try
+  | .list (.atom "match" :: e :: arms) => do
+    pure (.match (← parseExpr e) (← arms.mapM parseArm))
+  | .list (.atom "fstr" :: es) => do pure (.fstr (← es.mapM parseExpr))
+  | _ => none
+
+partial def parseKind : String → Option RetKind
+  | "ret" => some .ret | "accept" => some .accept | "reject" => some .reject | _ => none
+
+partial def parseField : Sexp → Option Field
+  | .list [f, e] => do pure (.mk (← parseNat f) (← parseExpr e))
+  | _ => none
+
+partial def parseArm : Sexp → Option Arm
+  | .list [.atom "arm", p, .atom "_", b] => do pure (.mk (← parsePat p) none (← parseBlock b))
+  | .list [.atom "arm", p, g, b] => do
+    pure (.mk (← parsePat p) (some (← parseExpr g)) (← parseBlock b))
+  | _ => none
+
+partial def parseStmt : Sexp → Option Stmt
+  | .list [.atom "let", x, .atom "_", e] => do pure (.let_ (← parseNat x) none (← parseExpr e))
+  | .list [.atom "let", x, t, e] => do
+    pure (.let_ (← parseNat x) (some (← parseTy t)) (← parseExpr e))
+  | .list [.atom "do", e] => (parseExpr e).map .expr
+  | _ => none
+
+partial def parseBlock : Sexp → Option Block
+  | .list [.atom "blk", .list stmts] => do pure (.mk (← stmts.mapM parseStmt) none)
+  | .list [.atom "blk", .list stmts, e] => do
+    pure (.mk (← stmts.mapM parseStmt) (some (← parseExpr e)))
+  | _ => none
+end
+
+def parseBinding : Sexp → Option (Nat × Ty)
+  | .list [x, t] => do pure (← parseNat x, ← parseTy t)
+  | _ => none
+
+def parseVariant : Sexp → Option (Nat × List Ty)
+  | .list (k :: tys) => do pure (← parseNat k, ← tys.mapM parseTy)
+  | _ => none
+
+def parseDecl : Sexp → Option Decl
+  | .list [.atom "fn", n, .list ps, rt, body] => do
+    pure (.fn (← parseNat n) (← ps.mapM parseBinding) (← parseTy rt) (← parseBlock body))
+  | .list [.atom "const", n, t, e] => do pure (.const (← parseNat n) (← parseTy t) (← parseExpr e))
+  | .list [.atom "rec", n, .list fs] => do pure (.type (← parseNat n) (.record (← fs.mapM parseBinding)))
+  | .list [.atom "enum", n, .list vs] => do pure (.type (← parseNat n) (.enum (← vs.mapM parseVariant)))
+  | _ => none
+
+def parseProg : Sexp → Option Prog
+  | .list (.atom "prog" :: ds) => do pure ⟨← ds.mapM parseDecl⟩
+  | _ => none
+
+def handleProg (text : String) : String :=
+  match parseSexp (tokens text) with
+  | some (sx, []) =>
+    match parseProg sx with
+    | some p => match checkProg p with
+      | .ok _ => "ok"
+      | .error e => s!"err {e}"
+    | none => "bad-parse"
+  | _ => "bad-parse"
+
+/-! operator table -/
+open RotoV.TcRules in
+def parseOTy : String → Option OTy
+  | "f32" => some .f32 | "f64" => some .f64 | "bool" => some .bool | "str" => some .string
+  | "char" => some .char | "ip" => some .ipAddr | "prefix" => some .prefix | "asn" => some .asn
+  | "unit" => some .unit | "listi32" => some .listI32 | "liststr" => some .listStr
+  | "opti32" => some .optI32 | "record" => some .record
+  | "intvar" => some (.intVar false) | "sintvar" => some (.intVar true) | "floatvar" => some .floatVar
+  | s => (parseITy s).map .int
+
+def showITy : ITy → String
+  | .u8 => "u8" | .u16 => "u16" | .u32 => "u32" | .u64 => "u64"
+  | .i8 => "i8" | .i16 => "i16" | .i32 => "i32" | .i64 => "i64"
+
+open RotoV.TcRules in
+def showOTy : OTy → String
+  | .int t => showITy t | .f32 => "f32" | .f64 => "f64" | .bool => "bool" | .string => "str"
+  | .char => "char" | .ipAddr => "ip" | .prefix => "prefix" | .asn => "asn" | .unit => "unit"
+  | .listI32 => "listi32" | .listStr => "liststr" | .optI32 => "opti32" | .record => "record"
+  | .intVar false => "intvar" | .intVar true => "sintvar" | .floatVar => "floatvar"
+
+def showRes (r : Option TcRules.OTy) : String :=
+  match r with | some t => s!"ok {showOTy t}" | none => "rej"
+
+/-! match bookkeeping -/
+def parsePatNameStr (s : String) : Option PatName :=
+  if s == "some" then some .some else if s == "none" then some .none
+  else if s.startsWith "K" then (s.drop 1).toString.toNat?.map .user else none
+
+def stripGuard (s : String) : String × Bool :=
+  if s.endsWith "g" && s != "g" then ((s.dropEnd 1).toString, true) else (s, false)
+
+/-- `_`, `_g`, `NAME:n`, `NAME:ng`, `NAME:b<k>`, `NAME:b<k>:dup` (two equal binders), each optionally ending in `g` -/
+def parseArmHead (s : String) : Option ArmHead :=
+  let (body, guarded) := stripGuard s
+  if body == "_" then some ⟨.wild, guarded⟩ else
+  match body.splitOn ":" with
+  | [n, "n"] => do pure ⟨.variant (← parsePatNameStr n) none, guarded⟩
+  | [n, b] =>
+    if b.startsWith "b" then do
+      let k ← (b.drop 1).toString.toNat?
+      pure ⟨.variant (← parsePatNameStr n) (some (List.range k)), guarded⟩
+    else none
+  | [n, b, "dup"] =>
+    if b.startsWith "b" then do
+      let k ← (b.drop 1).toString.toNat?
+      pure ⟨.variant (← parsePatNameStr n) (some ((List.range k).map fun i => if i == 1 then 0 else i)), guarded⟩
+    else none
+  | _ => none
+
+def parseVariantSpec (s : String) : Option (PatName × Nat) :=
+  match s.splitOn ":" with
+  | [n, k] => do pure (← parsePatNameStr n, ← k.toNat?)
+  | _ => none
+
+def showMatchErr : TcRules.MatchErr → String
+  | .unreachableAfterDefault => "unreachable" | .unknownVariant => "unknown-variant"
+  | .variantHasNoFields => "no-fields" | .patternArity => "arity"
+  | .needArguments => "need-arguments" | .declaredTwice => "declared-twice"
+  | .nonExhaustive => "non-exhaustive"
+  | .unreachableDuplicate => "unreachable"
+
+def csv (s : String) : List String := (s.splitOn ",").filter (· ≠ "")
+
+def handleMatch (vs arms : String) : String :=
+  match (csv vs).mapM parseVariantSpec, (if arms == "-" then some [] else (csv arms).mapM parseArmHead) with
+  | some vs, some arms =>
+    let real := match TcRules.matchReal vs arms with
+      | none => "ok" | some e => s!"err {showMatchErr e}"
+    let docVs := vs.map fun (n, k) => (n, List.replicate k Ty.unknown)
+    let doc := match matchHeads docVs arms [] false with
+      | none =>
+        -- duplicate binders are a redeclaration under the documented rules
+        if arms.any (fun h => match h.pat with | .variant _ (some xs) => hasDup xs | _ => false)
+        then "doc err redeclared" else "doc ok"
+      | some e => s!"doc err {e}"
+    s!"{real} ; {doc}"
+  | _, _ => "bad-op"
+
+/-! unification scripts -/
+open RotoV.Unify
+
+partial def parseMTy : Sexp → Option MTy
+  | .atom "unit" => some .unit
+  | .atom "never" => some .never
+  | .list [.atom "v", n] => (parseNat n).map .var
+  | .list [.atom "e", n] => (parseNat n).map .explicitVar
+  | .list [.atom "iv", n, s] => do pure (.intVar (← parseNat n) ((← parseNat s) == 1))
+  | .list [.atom "fv", n] => (parseNat n).map .floatVar
+  | .list (.atom "rv" :: n :: fs) => do pure (.recordVar (← parseNat n) (← fs.mapM parseMField))
+  | .list (.atom "rec" :: fs) => do pure (.record (← fs.mapM parseMField))
+  | .list [.atom "fn", .list ps, r] => do pure (.func (← ps.mapM parseMTy) (← parseMTy r))
+  | .list (.atom "n" :: n :: args) => do pure (.name (← parseNat n) (← args.mapM parseMTy))
+  | _ => none
+where
+  parseMField : Sexp → Option (Nat × MTy)
+    | .list [f, t] => do pure (← parseNat f, ← parseMTy t)
+    | _ => none
+
+partial def showMTy : MTy → String
+  | .var n => s!"(v {n})"
+  | .explicitVar n => s!"(e {n})"
+  | .intVar n s => s!"(iv {n} {if s then 1 else 0})"
+  | .floatVar n => s!"(fv {n})"
+  | .recordVar n fs => s!"(rv {n}{showFields fs})"
+  | .unit => "unit"
+  | .never => "never"
+  | .record fs => s!"(rec{showFields fs})"
+  | .func ps r => s!"(fn ({" ".intercalate (ps.map showMTy)}) {showMTy r})"
+  | .name n args => s!"(n {n}{String.join (args.map fun a => " " ++ showMTy a)})"
+where
+  showFields (fs : List (Nat × MTy)) : String :=
+    String.join (fs.map fun (f, t) => s!" ({f} {showMTy t})")
+
+def builtinDef (n : Nat) : TDef :=
+  if n < 4 then .int false else if n < 8 then .int true else if n < 10 then .float else .other
+
+def mkDefs (user : List (Nat × List (Nat × MTy))) : Defs := fun n =>
+  match user.lookup n with
+  | some fs => .record fs
+  | none => builtinDef n
+
+structure UState where
+  store : Store
+  out : List String
+  dead : Option String   -- `ice` / `stuck` ends the script
+
+def runOp (d : Defs) (st : UState) (op : Sexp) : UState :=
+  if st.dead.isSome then st else
+  match op with
+  | .list [.atom "fresh", .atom k] =>
+    let (t, s) := fresh st.store fun n =>
+      if k == "i" then .intVar n false else if k == "f" then .floatVar n else .var n
+    { st with store := s, out := st.out ++ ["T" ++ showMTy t] }
+  | .list (.atom "freshrec" :: fs) =>
+    match fs.mapM parseMTy.parseMField with
+    | some fs =>
+      let (t, s) := fresh st.store fun n => .recordVar n fs
+      { st with store := s, out := st.out ++ ["T" ++ showMTy t] }
+    | none => { st with dead := some "bad-op" }
+  | .list [.atom "unify", a, b] =>
+    match parseMTy a, parseMTy b with
+    | some a, some b =>
+      match unify d defaultFuel st.store a b with
+      | .ok _ s => { st with store := s, out := st.out ++ ["ok"] }
+      | .fail s => { st with store := s, out := st.out ++ ["fail"] }
+      | .ice => { st with dead := some "ice" }
+      | .stuck => { st with dead := some "stuck" }
+    | _, _ => { st with dead := some "bad-op" }
+  | .list [.atom "unifytop", a, b] =>
+    match parseMTy a, parseMTy b with
+    | some a, some b =>
+      match unifyTop d defaultFuel st.store a b with
+      | .ok _ s => { st with store := s, out := st.out ++ ["ok"] }
+      | .fail s => { st with store := s, out := st.out ++ ["fail"] }
+      | .ice => { st with dead := some "ice" }
+      | .stuck => { st with dead := some "stuck" }
+    | _, _ => { st with dead := some "bad-op" }
+  | .list [.atom "mark", a] =>
+    match parseMTy a with
+    | some a => { st with store := markSigned st.store a, out := st.out ++ ["m"] }
+    | none => { st with dead := some "bad-op" }
+  | _ => { st with dead := some "bad-op" }
+
+def handleUnify (text : String) : String :=
+  match parseSexp (tokens text) with
+  | some (.list (.atom "script" :: items), []) =>
+    let defs : List (Nat × List (Nat × MTy)) := items.flatMap fun
+      | .list (.atom "defs" :: ds) => ds.filterMap fun
+        | .list (n :: fs) => do pure (← parseNat n, ← fs.mapM parseMTy.parseMField)
+        | _ => none
+      | _ => []
+    let ops : List Sexp := items.flatMap fun
+      | .list (.atom "ops" :: os) => os
+      | _ => []
+    let d := mkDefs defs
+    let st := ops.foldl (runOp d) ⟨[], [], none⟩
+    match st.dead with
+    | some why => why
+    | none =>
+      let finds := (List.range st.store.length).map fun i =>
+        match find st.store (st.store.length + 1) i with
+        | some t => showMTy t
+        | none => "stuck"
+      " ".intercalate (st.out ++ ["|"] ++ finds)
+  | _ => "bad-op"
+
+/-! declarations -/
+def parseDKind : String → Option TcRules.DKind
+  | "local" => some .valueLocal | "const" => some (.valueConst true) | "conststub" => some (.valueConst false)
+  | "fn" => some (.function true) | "fnstub" => some (.function false)
+  | "method" => some (.method true) | "methodstub" => some (.method false)
+  | "module" => some .module | "variant" => some (.enumVariant true) | "variantstub" => some (.enumVariant false)
+  | "typeparam" => some .typeParam
+  | s =>
+    if s.startsWith "typestub" then (s.drop 8).toString.toNat?.map (.type true)
+    else if s.startsWith "type" then (s.drop 4).toString.toNat?.map (.type false)
+    else none
+
+def handleDecl (spec : String) : String :=
+  let items := (csv spec).mapM fun s => match s.splitOn ":" with
+    | [sc, id, k] => do pure ((← sc.toNat?, ← id.toNat?), ← parseDKind k)
+    | _ => none
+  match items with
+  | none => "bad-op"
+  | some items =>
+    let rec go (t : TcRules.Table) (i : Nat) : List (TcRules.Key × TcRules.DKind) → String
+      | [] => "ok"
+      | (k, d) :: rest => match TcRules.insertDecl t k d with
+        | some t' => go t' (i + 1) rest
+        | none => s!"err {i}"
+    go [] 0 items
+
+/-! literal variables: `c07 lit <n> <stmt>,<stmt>,…` with
+    `stmt ::= l<x> | f<x> | a<x>=<y> | n<x> | u<x>:<ty> | c<x>:<y>` -/
+def parseScalarTy (s : String) : Option Ty :=
+  match s with
+  | "f32" => some .f32 | "f64" => some .f64
+  | s => (parseITy s).map .int
+
+def parseLStmt (s : String) : Option LStmt :=
+  let rest := (s.drop 1).toString
+  if s.startsWith "l" then rest.toNat?.map fun x => .lit x false
+  else if s.startsWith "f" then rest.toNat?.map fun x => .lit x true
+  else if s.startsWith "n" then rest.toNat?.map .neg
+  else if s.startsWith "a" then match rest.splitOn "=" with
+    | [x, y] => do pure (.alias (← x.toNat?) (← y.toNat?))
+    | _ => none
+  else if s.startsWith "u" then match rest.splitOn ":" with
+    | [x, t] => do pure (.use (← x.toNat?) (← parseScalarTy t))
+    | _ => none
+  else if s.startsWith "c" then match rest.splitOn ":" with
+    | [x, y] => do pure (.cmp (← x.toNat?) (← y.toNat?))
+    | _ => none
+  else none
+
+/-! anonymous records: fields `name:ty,…` with `ty ::= int_ | float_ | bool | str | u8 | … | f32 | f64` -/
+def parseLitTy (s : String) : Option Ty :=
+  match s with
+  | "int_" => some (.anyInt false) | "float_" => some .anyFloat | "bool" => some .bool | "str" => some .string
+  | "unit" => some .unit
+  | s => parseScalarTy s
+
+def parseFieldsSpec (s : String) : Option (List (Nat × Ty)) :=
+  if s == "-" then some [] else
+  (csv s).mapM fun f => match f.splitOn ":" with
+    | [n, t] => do pure (← n.toNat?, ← parseLitTy t)
+    | _ => none
+
+def yn (b : Bool) : String := if b then "typable" else "untypable"
+
+def handle (args : List String) : String :=
+  match args with
+  | ["compat", pairs] =>
+    -- every listed pair of (possibly flexible) types must be compatible (`Typing.compat`)
+    if pairs == "never" then "untypable" else
+    let ps := (csv pairs).mapM fun s => match s.splitOn ":" with
+      | [a, b] => do pure (← parseLitTy a, ← parseLitTy b)
+      | _ => none
+    match ps with
+    | some ps => yn (ps.all fun p => compat p.1 p.2)
+    | none => "bad-op"
+  | ["rec", "fits", lit, target] =>
+    match parseFieldsSpec lit, parseFieldsSpec target with
+    | some l, some t => yn (recLitFits l t)
+    | _, _ => "bad-op"
+  | ["rec", "field", lit, f, ty] =>
+    match parseFieldsSpec lit, f.toNat?, parseLitTy ty with
+    | some l, some f, some ty => yn (recFieldFits l f ty)
+    | _, _, _ => "bad-op"
+  | ["lit", n, prog] =>
+    match n.toNat?, (csv prog).mapM parseLStmt with
+    | some n, some prog => if n ≤ 4 then (if ltypable n prog then "typable" else "untypable") else "bad-op"
+    | _, _ => "bad-op"
+  | "prog" :: rest => handleProg (" ".intercalate rest)
+  | ["op", op, l, r] =>
+    match parseOp op, parseOTy l, parseOTy r with
+    | some op, some l, some r => showRes (TcRules.binopReal op l r)
+    | _, _, _ => "bad-op"
+  | ["opdoc", op, l, r] =>
+    match parseOp op, parseOTy l, parseOTy r with
+    | some op, some l, some r =>
+      if op == .div && l == .ipAddr then
+        (if compat r.toTy (.int .u8) then "ok" else "rej")
+      else (match binopTy op l.toTy r.toTy with | some _ => "ok" | none => "rej")
+    | _, _, _ => "bad-op"
+  | ["assign", c, k] =>
+    let kind : Option TcRules.VKind := match k with
+      | "local" => some .local | "constant" => some .constant | "context" => some .context | _ => none
+    match kind with
+    | some kind => if TcRules.assignAccepts (c == "1") kind then "ok" else "rej"
+    | none => "bad-op"
+  | ["neg", t] => match parseOTy t with
+    | some t => showRes (TcRules.negateReal t) | none => "bad-op"
+  | ["not", t] => match parseOTy t with
+    | some t => showRes (TcRules.notReal t) | none => "bad-op"
+  | ["match", vs, arms] => handleMatch vs arms
+  | "unify" :: rest => handleUnify (" ".intercalate rest)
+  | ["decl", spec] => handleDecl spec
+  | _ => "bad-op"
 
 end Driver.C07
